@@ -6,30 +6,7 @@
 use std::cmp::Ordering;
 
 // high/low/close snapshot of a candle (indicators/mod.rs)
-//@extract src/indicators/mod.rs struct:HLC keepderive
-//@end
-impl HLC {
-//@extract src/indicators/mod.rs impl[HLC]::from
-	ensures r.high == src.high_s() && r.low == src.low_s() && r.close == src.close_s(),
-//@end
-}
-impl OHLCV for HLC {
-	open spec fn open_s(&self) -> ValueType { nan_value() }
-	open spec fn high_s(&self) -> ValueType { self.high }
-	open spec fn low_s(&self) -> ValueType { self.low }
-	open spec fn close_s(&self) -> ValueType { self.close }
-	open spec fn volume_s(&self) -> ValueType { nan_value() }
-//@extract src/indicators/mod.rs impl[OHLCV for HLC]::open
-//@end
-//@extract src/indicators/mod.rs impl[OHLCV for HLC]::high
-//@end
-//@extract src/indicators/mod.rs impl[OHLCV for HLC]::low
-//@end
-//@extract src/indicators/mod.rs impl[OHLCV for HLC]::close
-//@end
-//@extract src/indicators/mod.rs impl[OHLCV for HLC]::volume
-//@end
-}
+//@import hlc.rs.tpl
 
 // ================================================================== ParabolicSAR
 //@extract src/indicators/parabolic_sar.rs struct:ParabolicSAR keepderive
